@@ -27,7 +27,7 @@ ASSUMPTIONS = [
     "NEMA unbalance: magnitudes enter through fresh variables m >= 0, m^2 = re^2 + im^2 (nonlinear real arithmetic); periods where all three phase currents vanish are excluded (0/0)",
     "datetimes_array: datetime / timedelta / np.datetime64 modelled by the calendar model of C17 (naive instants, whole minutes)",
 ]
-EXPECT_GLOBAL_TAGS = ("agg", "cc:subset", "cc:reordered", "cc:after_update", "energy", "nema", "datetimes")
+EXPECT_GLOBAL_TAGS = ("agg", "cc:subset", "cc:reordered", "cc:after_update", "agg:after_partial_look", "energy", "nema", "datetimes")
 BAND = 1e-9 * 5000
 
 
@@ -96,12 +96,22 @@ def check_entry(cx, label, v, re, im):
     cx.check(label + ":magnitude", and_(ge(v, 0), close_(v * v, re * re + im * im, BAND * 400)))
 
 
-def h_aggregate(cx, angles, voltages, T):
+def h_aggregate(cx, angles, voltages, T, partial_first=False):
     env.install(cx)
     import acnportal.acnsim.analysis as AN
 
     sim, net, ids, coeffs, R = build(cx, angles, voltages, [], T, [])
     n = len(ids)
+    if partial_first and T > 1:
+        # history: the analysis functions were already called on this simulator when only its first period had been simulated (an
+        # interrupted run: the matrices have their full pre-allocated width, later columns still 0); then the run was completed
+        saved = sim.charging_rates[:, 1:].copy()
+        sim.charging_rates[:, 1:] = 0
+        sim._iteration = 1
+        AN.aggregate_current(sim), AN.aggregate_power(sim), AN.total_energy_delivered(sim)
+        sim.charging_rates[:, 1:] = saved
+        sim._iteration = T
+        cx.tag("agg:after_partial_look")
     ac = AN.aggregate_current(sim)
     ap = AN.aggregate_power(sim)
     cx.check("aggregate_current_length", len(ac) == T)
@@ -319,6 +329,8 @@ def jobs(tier):
     js = []
     for ang, V, T in ([((30, -90, 150), (208, 240, 120), 2)] if q else [((30, -90, 150), (208, 240, 120), 3), ((0, 0), (120, 277), 2), ((0, 120, -120, 45), (208, 240, 120, 480), 2)]):
         js.append(Job("aggregate[ang=%s,V=%s,T=%d]" % (ang, V, T), h_aggregate, dict(angles=ang, voltages=V, T=T), functions=FUNCS, bounds=dict(stations=len(ang), periods=T, voltages=V)))
+        js.append(Job("aggregate[ang=%s,V=%s,T=%d,after_partial_look]" % (ang, V, T), h_aggregate, dict(angles=ang, voltages=V, T=T, partial_first=True), functions=FUNCS,
+                      bounds=dict(stations=len(ang), periods=T, voltages=V, history="analysis called after the first period, run completed, analysis called again")))
     reqs = [None, (0,), (2, 0), (1, 2, 0), (2, 1)] if q else [None] + [p for r in (1, 2, 3) for p in itertools.permutations(range(3), r)] + [(1, 1, 0)]
     for request in reqs:
         for flag in (False, True):
